@@ -66,7 +66,9 @@ CHECKS = {
         "from an earlier run); TLC checks Atomic/NeverSilent on it. TLC enumerates base program x 37 single-point "
         "corruption kinds x position x wrapping (plain, .if 1, .else part, macro body, .repeat, .scope) x output "
         "type x stale file planted; each case runs the real naken_asm executable and TLC accepts the observed "
-        "(status, diagnostics, file state) iff it is a final state of Proc.",
+        "(status, diagnostics, file state) iff it is a final state of Proc. Further families: per-CPU programs with "
+        "terminators, the output path as a symbolic link, and numeric operands of the corpus forms at far-out values "
+        "(a run is erroneous exactly when it printed a diagnostic or its status is not 0).",
    design_ref="DESIGN.md 4 C12",
    note="Only source-level corruption. Diagnostics = stdout lines matching a fixed pattern. File completeness by "
         "terminator/magic (full decoding is C03). Combinations that can yield a valid program are excluded.",
@@ -200,7 +202,9 @@ CHECKS = {
         "0/1/2/9 parameters, a macro invoking a macro, a macro containing .repeat, string arguments with commas) followed "
         "by every body of 1-2 statements (BFS) and drawn bodies of up to 10; the real assembler assembles P on three "
         "carriers; TLC accepts the recorded image and symbols iff they equal Denote(Expand(P)). .include is checked "
-        "through the executable: moving the tail of a program into an included file must give the identical output file.",
+        "through the executable: moving the tail of a program into an included file must give the identical output file. "
+        "Wrap family: instruction lines of every CPU's corpus inside a macro and as a macro argument against TLC's expansion, "
+        "both assembled by the real code; macros of 60/100 parameters; raw strings with a tab or the byte 255.",
    design_ref="DESIGN.md 4 C09",
    note="Character level: CharSource.tla models the tokenizer's character source (file, stack of expansion texts, unget "
         "buffer, per-level marks into it) as tokens_get_char / macros_get_char implement it; MCCharSource checks for every "
